@@ -1,6 +1,7 @@
 package worlds
 
 import (
+	"strings"
 	"crypto/tls"
 	"io"
 	"net"
@@ -65,6 +66,7 @@ type UpConnRec struct {
 	AcceptAt  time.Duration
 	FirstDataStep int // global event number of the first byte received (0 = none yet)
 	FirstDataAt   time.Duration
+	SNI           string // TLS upstreams: server name in the ClientHello of this connection ("-" = none seen)
 	End       *simnet.End
 	Script    *UpScript
 	Health    bool // connection made by a health check (closed at once by the prober)
@@ -97,7 +99,12 @@ func (p *ProxyUps) Add(network, addr string, maxDialLatencyMs int) *simnet.Upstr
 func (p *ProxyUps) serve(addr string, c net.Conn, end *simnet.End, idx int) {
 	e := p.E
 	sc := p.ScriptFor(addr, idx)
-	rec := &UpConnRec{Addr: addr, Idx: idx, End: end, Script: sc, AcceptAt: e.S.Elapsed(), By: end.Peer().Name}
+	// the dialling end is named "<goroutine>><addr>#<n>": keep the goroutine
+	by := end.Peer().Name
+	if i := strings.Index(by, ">"); i >= 0 {
+		by = by[:i]
+	}
+	rec := &UpConnRec{Addr: addr, Idx: idx, End: end, Script: sc, AcceptAt: e.S.Elapsed(), By: by}
 	lk()
 	p.Recs = append(p.Recs, rec)
 	ulk()
@@ -118,7 +125,15 @@ func (p *ProxyUps) serve(addr string, c net.Conn, end *simnet.End, idx int) {
 		return
 	}
 	if sc.TLS {
-		tc := tls.Server(c, &tls.Config{Certificates: []tls.Certificate{ServerCert()}})
+		tc := tls.Server(c, &tls.Config{Certificates: []tls.Certificate{ServerCert()}, GetConfigForClient: func(hi *tls.ClientHelloInfo) (*tls.Config, error) {
+			lk()
+			rec.SNI = hi.ServerName
+			if rec.SNI == "" {
+				rec.SNI = "-"
+			}
+			ulk()
+			return nil, nil
+		}})
 		if err := tc.Handshake(); err != nil {
 			lk()
 			rec.RecvErr = err
